@@ -62,3 +62,34 @@ def register(reg):
         ]}},
         locals_types={"return_data": List(VAL)},
         props=["C05"])
+
+    # Dataset over a list / Balancer.__convert_to_dataset: one dataset item per input row, in order (first stage of C05)
+    reg.classdecl("RowIter", {"seq": List(ROW), "pos": INT})
+    reg.classdecl("Dataset", {"_Dataset__data_reader": Obj("RowIter")})
+    reg.contract(
+        FT, "Dataset.__init__", params={"self": Obj("Dataset"), "source": List(ROW)},
+        ensures=["self._Dataset__data_reader.seq is source and self._Dataset__data_reader.pos == 0 and fresh(self._Dataset__data_reader)"],
+        modifies=["self"], props=["C05"])
+    reg.classdecl("Balancer", {"_Balancer__reaction_col": STR})
+    RD = "result._Dataset__data_reader.seq"
+    reg.contract(
+        FB, "Balancer.__convert_to_dataset", params={"self": Obj("Balancer"), "data": List(VAL)}, returns=Obj("Dataset"), fresh_result=True,
+        raises={"ValueError": "exists(range(0, len(data)), lambda j: not is_str(data[j]) and not is_dictref(data[j]))"},
+        ensures=[
+            # a list of reaction strings and/or row dictionaries becomes a dataset with exactly one item per entry, in order:
+            # the dictionary itself, or a new row holding the string under the reaction column [C05]
+            "len({RD}) == len(data) and result._Dataset__data_reader.pos == 0".format(RD=RD),
+            "forall(range(0, len(data)), lambda j: implies(is_str(data[j]), fresh({RD}[j]) and self._Balancer__reaction_col in {RD}[j] and "
+            "{RD}[j][self._Balancer__reaction_col] == data[j] and forall(STR, lambda k: implies(k in {RD}[j], k == self._Balancer__reaction_col))))".format(RD=RD),
+            "forall(range(0, len(data)), lambda j: implies(not is_str(data[j]), {RD}[j] is as_row(data[j])))".format(RD=RD),
+        ],
+        loops={0: {"inv": [
+            "fresh(reaction_data) and len(reaction_data) == _i",
+            "forall(range(0, _i), lambda j: implies(is_str(data[j]), fresh(reaction_data[j]) and self._Balancer__reaction_col in reaction_data[j] and "
+            "reaction_data[j][self._Balancer__reaction_col] == data[j] and forall(STR, lambda k: implies(k in reaction_data[j], k == self._Balancer__reaction_col))))",
+            "forall(range(0, _i), lambda j: implies(not is_str(data[j]), reaction_data[j] is as_row(data[j])))",
+            "forall(range(0, _i), lambda j: is_str(data[j]) or is_dictref(data[j]))",
+        ]}},
+        modifies=[],
+        locals_types={"reaction_data": List(ROW)},
+        props=["C05"])
